@@ -66,7 +66,7 @@ def _c01() -> List[Obl]:
     for w in WWORDS:
         full = w in ("u8", "u16", "u32")
         out.append(Obl(id=f"c01.backend.adapter_write_word.{w}", prop="C01", engine="kani", target=f"obl_c11::{w}_::c11_write_word",
-                       tier="quick" if w in ("u16", "u64") else "thorough", kind="complete" if full else "bounded",
+                       tier="quick" if w == "u16" else "thorough", kind="complete" if full else "bounded",
                        bound="" if full else "fault schedules of a bounded number of calls of the wrapped sink (see c11.write_word)",
                        fns=["WordAdapter::write_word (sink with short writes / interrupts / errors)"]))
     return out
